@@ -45,8 +45,13 @@ func genShareList(t *rapid.T, n int, subset []int) []int {
 	order := rapid.Permutation(subset).Draw(t, "order")
 	var list []int
 	for _, idx := range order {
-		if rapid.IntRange(0, 5).Draw(t, "hole") == 0 {
-			list = append(list, -1)
+		switch rapid.IntRange(0, 9).Draw(t, "hole") {
+		case 0:
+			list = append(list, -1) // nil pointer
+		case 1:
+			// a share object without a value (documented as skipped): any index, also one whose real
+			// share is in the list - encoded as -(2+index)
+			list = append(list, -(2 + rapid.IntRange(0, n-1).Draw(t, "valueless")))
 		}
 		list = append(list, idx)
 		if rapid.IntRange(0, 6).Draw(t, "dup") == 0 {
@@ -152,7 +157,10 @@ func c07Case(t *rapid.T, ev *evProp, gi *GroupInfo, maxN int) {
 	var priList []*share.PriShare
 	var pubList []*share.PubShare
 	for _, idx := range list {
-		if idx < 0 {
+		if idx <= -2 {
+			priList = append(priList, &share.PriShare{I: uint32(-idx - 2)})
+			pubList = append(pubList, &share.PubShare{I: uint32(-idx - 2)})
+		} else if idx < 0 {
 			priList = append(priList, nil)
 			pubList = append(pubList, nil)
 		} else {
